@@ -1,11 +1,144 @@
-"""C03 — see DESIGN.md section 4 and harness/storecheck.py."""
-from . import storecheck
+"""C03 — no feature ever holds a value of the wrong type (DESIGN.md section 4).
+
+(i)  history level (harness/storecheck.py): generated histories with ~12% non-conforming operands, model vs code.
+(ii) conformance matrix, exhaustive: (every built-in data type, two enumerations sharing a literal name, a class
+     hierarchy with a diamond) x (a palette of Python values, instances of every class, own / foreign / free-standing
+     literals and literal names) x (every mutation path): accepted iff the independent predicate says it conforms;
+     a rejection is a BadValueError, stores nothing and, for single-valued paths, changes nothing.
+"""
+import datetime
+import decimal
+from . import storecheck, common
 
 CHECKS = ('c03',)
 
 
+def matrix(ctx):
+    from pyecore import ecore as E
+    from pyecore.valuecontainer import BadValueError
+    from . import extract as ex
+    # ---- types --------------------------------------------------------------------------------------------
+    K = [E.EClass(f'K{i}') for i in range(5)]
+    K[1].eSuperTypes.append(K[0]); K[2].eSuperTypes.append(K[0])
+    K[3].eSuperTypes.extend([K[1], K[2]])          # diamond; K4 unrelated
+    En1 = E.EEnum('En1', literals=['A', 'B', 'SHARED'])
+    En2 = E.EEnum('En2', literals=['SHARED', 'C'])
+    free = E.EEnumLiteral('SHARED', value=2)
+    dts = [(n, v) for (n, p, t, f, v) in ex.datatype_rows() if n.startswith('ecore.')]
+    types = [('cls:' + k.name, k) for k in K] + [('enum:En1', En1), ('enum:En2', En2)] + [('dt:' + n, v) for n, v in dts]
+    insts = {k.name: k() for k in K}
+    values = [('None', None), ('True', True), ('False', False), ('0', 0), ('1', 1), ('-1', -1), ('2**70', 2 ** 70), ('1.5', 1.5),
+              ("'a'", 'a'), ("''", ''), ("'A'", 'A'), ("'SHARED'", 'SHARED'), ("'C'", 'C'), ("'nope'", 'nope'),
+              ("b'x'", b'x'), ('bytearray', bytearray(b'x')), ('datetime', datetime.datetime(2020, 1, 2)),
+              ('Decimal', decimal.Decimal('1.5')), ('dict', {}), ('list', []), ('object', object()), ('type', int)]
+    values += [('inst:' + n, o) for n, o in insts.items()]
+    values += [(f'lit:En1.{l.name}', l) for l in En1.eLiterals] + [(f'lit:En2.{l.name}', l) for l in En2.eLiterals]
+    values += [('lit:free.SHARED', free)]
+
+    def expected(t, v, many):
+        if v is None:
+            return not many          # None into a many-valued feature is outside the statement: not judged (see below)
+        if isinstance(t, E.EClass):
+            return isinstance(v, E.EObject) and not isinstance(v, (E.EEnumLiteral,)) and \
+                (v.eClass is t or t in v.eClass.eAllSuperTypes())
+        if isinstance(t, E.EEnum):
+            if isinstance(v, E.EEnumLiteral):
+                return any(v is l for l in t.eLiterals)
+            return isinstance(v, str) and any(l.name == v for l in t.eLiterals)
+        return isinstance(v, t.eType)
+
+    Holder = E.EClass('Holder')
+    feats = {}
+    for i, (tn, t) in enumerate(types):
+        for many in (False, True):
+            name = f'f{i}{"m" if many else "s"}'
+            if isinstance(t, E.EClass):
+                f = E.EReference(name, t, upper=-1 if many else 1, unique=False)
+            else:
+                f = E.EAttribute(name, t, upper=-1 if many else 1, unique=False)
+            Holder.eStructuralFeatures.append(f)
+            feats[(tn, many)] = f
+    paths_single = ['attr', 'eSet-name', 'eSet-feature', 'kwargs']
+    paths_many = ['append', 'insert', 'extend', 'iadd', 'assign', 'setitem', 'setslice']
+    for (tn, t) in types:
+        for (vn, v) in values:
+            for many, paths in ((False, paths_single), (True, paths_many)):
+                if v is None and many:
+                    continue
+                f = feats[(tn, many)]
+                want = expected(t, v, many)
+                for path in paths:
+                    h = Holder()
+                    if many:
+                        # one conforming element first, so that item/slice assignment has something to replace
+                        seed = next((x for (_, x) in values if x is not None and expected(t, x, True)), None)
+                        if seed is None:
+                            continue
+                        getattr(h, f.name).append(seed)
+                    before = list(getattr(h, f.name)) if many else getattr(h, f.name)
+                    isset_before = h.eIsSet(f)
+                    try:
+                        if path == 'attr':
+                            setattr(h, f.name, v)
+                        elif path == 'eSet-name':
+                            h.eSet(f.name, v)
+                        elif path == 'eSet-feature':
+                            h.eSet(f, v)
+                        elif path == 'kwargs':
+                            h = Holder(**{f.name: v})
+                        elif path == 'append':
+                            getattr(h, f.name).append(v)
+                        elif path == 'insert':
+                            getattr(h, f.name).insert(0, v)
+                        elif path == 'extend':
+                            getattr(h, f.name).extend([v])
+                        elif path == 'iadd':
+                            c = getattr(h, f.name); c += [v]
+                        elif path == 'assign':
+                            setattr(h, f.name, [v])
+                        elif path == 'setitem':
+                            getattr(h, f.name)[0] = v
+                        elif path == 'setslice':
+                            getattr(h, f.name)[0:1] = [v]
+                        out = 'accepted'
+                    except BadValueError:
+                        out = 'BadValueError'
+                    except Exception as e:
+                        out = 'raised ' + type(e).__name__
+                    ctx.evaluations += 1
+                    ctx.count('matrix/' + path)
+                    ctx.nontriv((tn, vn, path))
+                    now = list(getattr(h, f.name)) if many else getattr(h, f.name)
+                    problem = None
+                    if want and out != 'accepted':
+                        problem = ('conforming-rejected', f'{tn} <- {vn} via {path}: {out}')
+                    elif not want and out != 'BadValueError':
+                        problem = ('not-rejected', f'{tn} <- {vn} via {path}: {out}, feature now {now!r}')
+                    elif not want and path != 'kwargs':
+                        same = (len(now) == len(before) and all(a is b or a == b for a, b in zip(now, before))) if many \
+                            else (now is before or now == before)
+                        if not same or h.eIsSet(f) != isset_before:
+                            problem = ('rejected-but-changed', f'{tn} <- {vn} via {path}: {before!r} -> {now!r}')
+                    elif want and out == 'accepted':
+                        stored = now if many else [now]
+                        if not any(x is v or (x == v and type(x) is type(v)) or
+                                   (isinstance(t, E.EEnum) and isinstance(v, str) and getattr(x, 'name', x) == v) for x in stored):
+                            if not (isinstance(t, E.EEnum)):
+                                problem = ('accepted-not-stored', f'{tn} <- {vn} via {path}: feature now {now!r}')
+                    if problem:
+                        ctx.violate({'clause': problem[0], 'path': path, 'type': tn.split(':')[0]}, f'{problem[0]}: {problem[1]}',
+                                    {'kind': 'matrix', 'type': tn, 'value': vn, 'path': path})
+    ctx.extra['matrix_types'] = len(types)
+    ctx.extra['matrix_values'] = len(values)
+
+
 def run(ctx):
     storecheck.run(ctx, CHECKS)
+    matrix(ctx)
+    ctx.rule += ('; plus the exhaustive conformance matrix: every ecore data type, two enumerations sharing a literal name, 5 classes '
+                 'with a diamond x a palette of 35 values (None, bools, ints, floats, strs incl. literal names, bytes, datetime, Decimal, '
+                 'dict, list, type, instances of every class, own/foreign/free-standing literals) x 11 mutation paths')
+    ctx.assumptions.append('None offered to a many-valued feature is neither listed nor excluded by the statement and pinned as accepted by the suite: not judged')
 
 
 def search(ctx):
@@ -13,4 +146,12 @@ def search(ctx):
 
 
 def replay(ctx, data):
+    if data['replay'].get('kind') == 'matrix':
+        common.use_repo()
+        c2 = common.Ctx('C03', 'quick', 0)
+        matrix(c2)
+        hits = [v for v in c2.violations if v['replay']['type'] == data['replay']['type'] and v['replay']['value'] == data['replay']['value']]
+        for v in hits[:5]:
+            print('  ', v['what'])
+        return 1 if hits else 0
     return storecheck.replay(ctx, data, CHECKS)
